@@ -5,6 +5,7 @@ import (
 	"encoding/json"
 	"fmt"
 	"math/rand"
+	"net"
 	"os"
 	"time"
 
@@ -65,6 +66,7 @@ func (match4Engine) Run(ctx *fw.Ctx, cs any) {
 		job.Iface = "ve0"
 	}
 	var datas [][]byte
+	peerOf := map[int]string{} // requests that do not come from the usual peer address
 	xid := uint32(rng.Intn(1<<20)) << 8
 	// (1) the opcode x message-type matrix
 	types := [][]byte{nil}
@@ -226,6 +228,30 @@ func (match4Engine) Run(ctx *fw.Ctx, cs any) {
 			}
 		}
 	}
+	// (1d) exchanges of one client over time: a relayed REQUEST that selects an address (options 82, 54, 50),
+	// later the same client's unicast renewal of that address, sent from that address, without any of them - what
+	// a reply mirrors is its own request, not an earlier one
+	for k := 0; k < 12; k++ {
+		mac := []byte{2, 0, 0, 0, 6, byte(k)}
+		a := [4]byte{10, 77, 0, byte(60 + k)}
+		xid++
+		p1 := pkt.Request4(xid, mac, 3, pkt.O4(50, a[:]...), pkt.O4(54, 10, 77, 0, 1), pkt.O4(82, 1, 3, 'e', 't', 'h', 2, 2, 'r', byte('0'+k)), pkt.O4(55, 1, 3, 6))
+		if k%3 == 0 {
+			p1.Opts = append(p1.Opts, pkt.O4(61, 1, 2, 0, 0, 0, 6, byte(k)))
+		}
+		p1.Gi, p1.Hops = pkt.IP4("10.9.9.9"), 1
+		datas = append(datas, p1.Bytes())
+		for rep := 0; rep < 2; rep++ {
+			xid++
+			p2 := pkt.Request4(xid, mac, 3, pkt.O4(55, 1, 3, 6))
+			if k%3 == 0 {
+				p2.Opts = append(p2.Opts, pkt.O4(61, 1, 2, 0, 0, 0, 6, byte(k)))
+			}
+			p2.Ci = a
+			peerOf[len(datas)] = net.IP(a[:]).String()
+			datas = append(datas, p2.Bytes())
+		}
+	}
 	// (2) generated and mutated datagrams
 	for i := 0; i < c.NRand; i++ {
 		xid++
@@ -235,8 +261,12 @@ func (match4Engine) Run(ctx *fw.Ctx, cs any) {
 		}
 		datas = append(datas, d)
 	}
-	for _, d := range datas {
-		job.Reqs = append(job.Reqs, ChainReq{Hex: hex.EncodeToString(d), RxIfName: []string{"ve0", "vf0"}[rng.Intn(2)], Peer: "10.77.0.99", Port: 68})
+	for i, d := range datas {
+		peer := "10.77.0.99"
+		if p, ok := peerOf[i]; ok {
+			peer = p
+		}
+		job.Reqs = append(job.Reqs, ChainReq{Hex: hex.EncodeToString(d), RxIfName: []string{"ve0", "vf0"}[rng.Intn(2)], Peer: peer, Port: 68})
 	}
 	job.LogLevel = caseLogLevel(c.Seed)
 	out := RunChain(job, ctx.Scratch, 5*time.Minute)
